@@ -19,7 +19,7 @@ class C18(BaseCheck):
              'scales.varz:VarzAggregator.CalculatePercentile')
   REQUIRED_ANCHORS = ANCHORS
   REQUIRED_CLASSES = ('counter', 'gauge', 'percentile:below-reservoir', 'percentile:above-reservoir',
-                      'full-stack')
+                      'full-stack', 'percentile:busy-after-full')
   ASSUMPTIONS = ('percentile bounds allow 1e-9 relative slack for the linear interpolation',)
   QUICK_CASES = 720
   THOROUGH_CASES = 8000
@@ -150,6 +150,13 @@ class C18(BaseCheck):
         v = -rng.random() * 10
       s = the_src if same_object else Source(*pt)
       VarzReceiver.RecordPercentileSample(s, metric, v)
+    if size > 1000 and rng.random() < 0.5:
+      # the source stays busy for several more (virtual) minutes after its reservoir filled
+      classes.add('percentile:busy-after-full')
+      for _ in range(rng.choice([330, 660])):
+        env.advance(1.0)
+        s = the_src if same_object else Source(*pt)
+        VarzReceiver.RecordPercentileSample(s, metric, rng.random() * 100 if stream_cls != 'negative' else -rng.random())
     agg = VarzAggregator.Aggregate(VarzReceiver.VARZ_DATA, VarzReceiver.VARZ_METRICS)
     series = VarzReceiver.VARZ_DATA.get(metric, {})
     mine = [(k, v) for k, v in series.items() if k.to_tuple() == pt]
